@@ -55,6 +55,11 @@ def go (s : St) : List (List Delta) → Nat → String
     | .error j => s!"ill-formed-step {k} delta {j}"
 
 def handle : List String → Option String
+  | ["c02.slidenums", n, k, j] => do
+      let n ← n.toNat?; let k ← k.toNat?; let j ← j.toNat?
+      let nums := numbersAfter n k j
+      let news := (List.range j).map fun i => nextSlideNumber n k i
+      pure s!"{encNatList nums} {encNatList news}"
   | ["c02.hist", snap, steps] => do
       let s0 ← (snap.splitOn ";").mapM decPart
       let stepL ← if steps == "!" then some [] else (steps.splitOn "|").mapM decStep
